@@ -1,4 +1,5 @@
 """C11 - multiunion is the exact sorted union for every integer-key family."""
+from ..harness import safe_repr as _srepr  # noqa: E402
 from .. import families, setops
 from ..families import INT_RANGES
 from ..harness import brief
@@ -252,7 +253,7 @@ def run_shard(spec, rec):
         want = sorted(allk)
         desc = dict(family=fam.name, impl=impl, n=len(keys), pattern=pattern,
                     operand_kinds=kinds[:12])
-        rec.journal(repr(desc))
+        rec.journal(_srepr(desc))
         fn = fam.fn('multiunion', impl)
         keep = None
         if i % 3 == 0:
